@@ -159,22 +159,24 @@ PROFILES = {
         'gen': gen_c13.gen_c13,
         'gen_indexed': gen_c13.gen_c13_indexed,
         'fixed_runs': lambda tier: gen_c13.GRID_SIZE,
+        'seed_shift': lambda tier: gen_c13.GRID_SIZE,
         'props': ['C13'],
         'coverage': c13_coverage,
         'warnings': c13_warnings,
         'level': 'exploration',
-        'quick_runs': 9500,
+        'quick_runs': 9512,
         'thorough_runs': 200000,
     },
     'C08': {
         'gen': gen_hist.gen_c08,
         'gen_indexed': gen_hist.gen_c08_indexed,
         'fixed_runs': gen_sweep.sweep_size,
+        'seed_shift': lambda tier: gen_sweep.sweep_size(tier) - gen_sweep.LEGACY_SWEEP_SIZE[tier],
         'props': ['C08'],
         'coverage': c08_coverage,
         'warnings': c08_warnings,
         'level': 'exploration',
-        'quick_runs': 4342,
-        'thorough_runs': 153602,
+        'quick_runs': 4345,
+        'thorough_runs': 153300,
     },
 }
